@@ -364,7 +364,8 @@ CheckpointsResume == <>[](~EnoughAlive) \/ []<>(pubs = 1 /\ ~pend.on)
 LiveConstraint == ckptId <= 3 /\ asm.gen <= 4
 
 -----------------------------------------------------------------------------
-Dump == (Len(hist) >= MaxLen) => PrintT(<<"BEHAVIOUR", ToJson(hist)>>)
+Terminal == ~ENABLED (Internal \/ External)
+Dump == (Len(hist) >= MaxLen \/ Terminal) => PrintT(<<"BEHAVIOUR", ToJson(hist)>>)
 \* states in which the (unrepaired) design is stuck behind a leftover: used with a Dev_* constant TRUE
 CexDump == (~NoLeftover /\ Len(hist) < MaxLen) => PrintT(<<"BEHAVIOUR", ToJson(hist)>>)
 =============================================================================
